@@ -358,8 +358,8 @@ def r16_3(chk, sdf, mol):
     q = "to_sdf_string"
     ev = sdf.ev(q)
     chk.saw(SDF, q)
-    chk.need(len(ev.returns) == 1, f"{q}: expected one return")
-    ret = ev.returns[0]
+    chk.need(len(ev.returns) >= 1, f"{q}: no return")
+    ret = ev.returns[-1]          # an exit in front of it with another value is reported by R16.19 (sa/rules/exits.py)
     # appended content of the list objects
     appended = {}
     for e in ev.events:
